@@ -132,7 +132,8 @@ pub fn fen_board_field<S: Src, const N: usize>(s: &mut S) {
     let r = RawBoard::from_str(st);
     vnote!("fen text={:?} -> {:?}", st, r.as_ref().err());
     vassert!("a FEN record without a side-to-move field is an error", r.is_err());
-    vcover!("eight complete ranks parsed", matches!(r, Err(owlchess::board::RawFenParseError::NoMoveSide)));
+    vcover!("eight complete ranks parsed (needs 15 bytes)", N < 15 || matches!(r, Err(owlchess::board::RawFenParseError::NoMoveSide)));
+    vcover!("not enough ranks", matches!(r, Err(owlchess::board::RawFenParseError::Board(owlchess::board::CellsParseError::Underflow))));
     vcover!("non-ASCII", matches!(r, Err(owlchess::board::RawFenParseError::NonAscii)));
 }
 
@@ -164,4 +165,37 @@ pub fn fen_tail<S: Src, const N: usize>(s: &mut S) {
     }
     vcover!("accepted", r.is_ok());
     vcover!("accepted with an e.p. square", matches!(r, Ok(RawBoard { ep_source: Some(_), .. })));
+}
+
+/// FEN family (c): seven complete ranks "8/8/8/8/8/8/8/" followed by <= N symbolic bytes (no space):
+/// the end of the board field - eighth rank, rank overflow / underflow, a ninth rank
+pub fn fen_board_end<S: Src, const N: usize>(s: &mut S) {
+    let (buf, len) = any_str::<S, N>(s);
+    vassume!(utf8_ok(&buf, len));
+    let mut full = [0u8; 32];
+    let head = b"8/8/8/8/8/8/8/";
+    let mut i = 0;
+    while i < head.len() {
+        full[i] = head[i];
+        i += 1;
+    }
+    let mut j = 0;
+    let mut no_space = true;
+    while j < N {
+        if j < len {
+            full[head.len() + j] = buf[j];
+            if buf[j] == b' ' {
+                no_space = false;
+            }
+        }
+        j += 1;
+    }
+    vassume!(no_space);
+    let st = unsafe { core::str::from_utf8_unchecked(&full[..head.len() + len]) };
+    let r = RawBoard::from_str(st);
+    vnote!("fen text={:?} -> {:?}", st, r.as_ref().err());
+    vassert!("a FEN record without a side-to-move field is an error", r.is_err());
+    vcover!("eight complete ranks parsed", matches!(r, Err(owlchess::board::RawFenParseError::NoMoveSide)));
+    vcover!("too many ranks", matches!(r, Err(owlchess::board::RawFenParseError::Board(owlchess::board::CellsParseError::Overflow))));
+    vcover!("rank overflow", matches!(r, Err(owlchess::board::RawFenParseError::Board(owlchess::board::CellsParseError::RankOverflow(_)))));
 }
